@@ -170,7 +170,8 @@ class FastHierarchyAnalyzer(HierarchyAnalyzerBase):
             exclude.add(opt_idx_try)
             exclude.add(opt_idx_imp)
 
-        if not graph_instance.feasible:
+        # No graph at all if every (neighboring) design vector has been excluded before
+        if graph_instance is None or not graph_instance.feasible:
             raise RuntimeError('No more feasible graphs!')
 
         # Update imputation cache
